@@ -77,6 +77,13 @@ package mqttproxy
 //     duplicate rules are not generated.
 //   * overlapping rules: the first matching rule in spec order limits the
 //     request (anchor "first matching URL rule").
+//   * a rule's url criteria are matched against the path of the request: the
+//     query string is not part of it, percent-encoded unreserved characters are
+//     equivalent to the plain ones (RFC 3986; encoded reserved characters are
+//     not generated); several criteria in one rule are alternatives (doc: OR).
+//   * a policy without limitForPeriod (documented default 50) is generated only
+//     with c09WideDefaultLimit: easegress rejects such a spec
+//     (C09.documented-default-limit-rejected, reported).
 //   * mqtt bytes: "exceed bytesRate by less than one packet" is read with the
 //     largest packet admitted in that period; a rejection is justified when
 //     the period's request permits are used up or when the byte permits of the
@@ -90,6 +97,7 @@ import (
 	stdctx "context"
 	"fmt"
 	"net/http"
+	"net/url"
 	"regexp"
 	"runtime"
 	"sort"
@@ -120,6 +128,8 @@ type c09Pol struct {
 type c09Rule struct {
 	Kind    string   `json:"kind"` // exact | prefix | regex
 	Pat     string   `json:"pat"`
+	Kind2   string   `json:"kind2,omitempty"` // a second criterion of another kind in the same rule (doc: the relationship is OR)
+	Pat2    string   `json:"pat2,omitempty"`
 	Methods []string `json:"methods,omitempty"`
 	Ref     string   `json:"ref,omitempty"`
 }
@@ -174,8 +184,24 @@ type c09Scenario struct {
 	Clients       []c09Cli `json:"clients,omitempty"`
 }
 
+// Generator ranges added in the "ordinary but unexplored" round. Each group can
+// be switched off on its own (a group whose cases expose a genuine defect of
+// easegress stays off until the finding is settled).
+const (
+	c09WidePolicies = true // limitForPeriod 20/50, periods 100ms/60s, timeouts of 30 and 100 periods, deep bursts
+	c09WideIdle     = true // idle gaps of 8 hours (period indexes beyond 10^6)
+	c09WideURLs     = true // query strings, percent-encoded unreserved characters, HEAD/DELETE/PATCH/OPTIONS, rules with two match criteria, rules that differ only in methods
+	c09WideMQTT     = true // timePeriod 60, bytesRate 20000 (3-byte remaining length), SUBSCRIBE/UNSUBSCRIBE between publishes
+	// a policy that leaves limitForPeriod out and relies on the documented
+	// default of 50 (doc/reference/filters.md, ratelimiter.Policy)
+	c09WideDefaultLimit = false // stays OFF: easegress rejects such a spec at validation (decided: an observation, not a violation of the statement; DESIGN.md)
+)
+
 func c09PickTimeout(rng *sim.Rand, P int64) int64 {
 	c := []int64{0, 0, P / 2, P - 1, P, P + 1, P * 3 / 2, 2 * P, 3 * P, 3*P - 1, 10 * P}
+	if c09WidePolicies && rng.Bool(0.12) {
+		c = []int64{30 * P, 100 * P, 100*P + P/2}
+	}
 	return c[rng.Intn(len(c))]
 }
 
@@ -183,8 +209,25 @@ func c09GenPol(rng *sim.Rand) c09Pol {
 	p := c09Pol{}
 	p.Limit = rng.Pick(1, 1, 2, 2, 3, 5, 8)
 	p.PeriodUs = int64(rng.Pick(1000, 10000, 1000000, 7000))
+	if c09WidePolicies {
+		if rng.Bool(0.06) {
+			p.Limit = rng.Pick(20, 50)
+		}
+		if rng.Bool(0.1) {
+			p.PeriodUs = int64(rng.Pick(100000, 60000000))
+		}
+	}
 	p.TimeoutUs = c09PickTimeout(rng, p.PeriodUs)
 	return p
+}
+
+// c09Total draws the number of operations of a run: enough to exhaust a
+// large limitForPeriod now and then.
+func c09Total(rng *sim.Rand, limit int) (total int, burst bool) {
+	if limit >= 20 {
+		return rng.Range(limit, 3*limit), rng.Bool(0.7)
+	}
+	return rng.Range(6, 60), false
 }
 
 func c09GenTasks(rng *sim.Rand, P, T int64, total int, burst bool, fill func(op *c09Op)) []c09Task {
@@ -196,6 +239,9 @@ func c09GenTasks(rng *sim.Rand, P, T int64, total int, burst bool, fill func(op 
 	}
 	zeroPct := rng.Pick(20, 50, 80, 95)
 	gaps := []int64{1, P / 3, P / 2, P - 1, P, P + 1, 2 * P, 3 * P, T, T + 1, 17 * P, 50*P + P/2}
+	if c09WideIdle && rng.Bool(0.1) {
+		gaps = append(gaps, 8*3600*1000000, 8*3600*1000000+P/2) // the service is idle overnight
+	}
 	alignPct := rng.Pick(0, 5, 15, 30)
 	if burst {
 		zeroPct = 97
@@ -230,6 +276,28 @@ func c09GenTasks(rng *sim.Rand, P, T int64, total int, burst bool, fill func(op 
 
 var c09Paths = []string{"/a", "/a/b", "/a/c", "/b", "/b/x", "/r/1", "/r/22", "/r/x", "/zzz", "/"}
 
+// targets as real clients send them: with a query string, with
+// percent-encoded unreserved characters (RFC 3986 6.2.2.2: equivalent to the
+// plain ones). A rule's url criterion is matched against the path.
+var c09PathsWide = []string{"/a?x=1", "/a/b?next=/b/x", "/r/22?y", "/zzz?u=/a", "/%61/c", "/b/%78?q=%2Fa", "/r/x?1"}
+
+var c09RuleMenuWide = []c09Rule{
+	{Kind: "exact", Pat: "/b/x", Kind2: "prefix", Pat2: "/a/"},
+	{Kind: "prefix", Pat: "/b", Kind2: "regex", Pat2: "^/r/[a-z]+$"},
+	{Kind: "exact", Pat: "/a", Kind2: "regex", Pat2: "^/r/[0-9]$"},
+}
+
+// c09PathOf returns the path of a request target: without the query, percent-decoded.
+func c09PathOf(target string) string {
+	if i := strings.IndexByte(target, '?'); i >= 0 {
+		target = target[:i]
+	}
+	if p, err := url.PathUnescape(target); err == nil {
+		return p
+	}
+	return target
+}
+
 var c09RuleMenu = []c09Rule{
 	{Kind: "exact", Pat: "/a"}, {Kind: "prefix", Pat: "/a"}, {Kind: "regex", Pat: "^/r/[0-9]+$"},
 	{Kind: "prefix", Pat: "/b"}, {Kind: "exact", Pat: "/a/b"}, {Kind: "exact", Pat: "/b/x"}, {Kind: "prefix", Pat: "/"},
@@ -245,7 +313,11 @@ func c09GenSpec(rng *sim.Rand, defaults, defSwitch bool) c09Spec {
 	}
 	for i := 0; i < np; i++ {
 		p := c09GenPol(rng)
+		wideLimit := p.Limit >= 20
 		p.Limit = rng.Pick(1, 1, 2, 3, 5)
+		if wideLimit {
+			p.Limit = 20
+		}
 		p.Name = fmt.Sprintf("p%d", i)
 		if defaults && i == 0 {
 			// fields left out of the spec: documented defaults apply.
@@ -258,6 +330,9 @@ func c09GenSpec(rng *sim.Rand, defaults, defSwitch bool) c09Spec {
 			} else {
 				p.TimeoutUs = -1
 			}
+			if c09WideDefaultLimit && rng.Bool(0.5) {
+				p.Limit = 0
+			}
 		}
 		s.Policies = append(s.Policies, p)
 	}
@@ -268,6 +343,14 @@ func c09GenSpec(rng *sim.Rand, defaults, defSwitch bool) c09Spec {
 	perm := rng.Perm(len(c09RuleMenu) - 1)
 	for i := 0; i < nr; i++ {
 		ru := c09RuleMenu[perm[i]]
+		if c09WideURLs && rng.Bool(0.08) {
+			ru = c09RuleMenuWide[rng.Intn(len(c09RuleMenuWide))]
+			for _, x := range s.Rules {
+				if x.Kind == ru.Kind && x.Pat == ru.Pat {
+					ru = c09RuleMenu[perm[i]]
+				}
+			}
+		}
 		if i == nr-1 && rng.Bool(0.1) {
 			ru = c09RuleMenu[len(c09RuleMenu)-1] // catch-all last
 		}
@@ -276,6 +359,10 @@ func c09GenSpec(rng *sim.Rand, defaults, defSwitch bool) c09Spec {
 			ru.Methods = []string{"GET"}
 		case 1:
 			ru.Methods = []string{"GET", "POST"}
+		case 2:
+			if c09WideURLs {
+				ru.Methods = [][]string{{"POST", "PUT", "DELETE"}, {"HEAD", "GET"}, {"PATCH"}}[rng.Intn(3)]
+			}
 		}
 		ru.Ref = s.Policies[rng.Intn(np)].Name
 		if s.Default != "" && rng.Bool(0.3) {
@@ -285,6 +372,22 @@ func c09GenSpec(rng *sim.Rand, defaults, defSwitch bool) c09Spec {
 			ru.Ref = ""
 		}
 		s.Rules = append(s.Rules, ru)
+	}
+	if c09WideURLs && rng.Bool(0.12) {
+		// "GET /x" and "POST /x" limited separately: two rules on one pattern
+		// that differ only in methods (and possibly in the policy)
+		k := rng.Intn(len(s.Rules))
+		sib := s.Rules[k]
+		s.Rules[k].Methods = []string{"GET"}
+		sib.Methods = []string{"POST", "PUT"}
+		if rng.Bool(0.5) {
+			sib.Ref = s.Policies[rng.Intn(np)].Name
+		}
+		if rng.Bool(0.5) {
+			s.Rules = append(s.Rules[:k+1], append([]c09Rule{sib}, s.Rules[k+1:]...)...)
+		} else {
+			s.Rules = append(s.Rules, sib)
+		}
 	}
 	return s
 }
@@ -311,7 +414,11 @@ func c09Gen(rng *sim.Rand, tier string) interface{} {
 	case x < 33:
 		sc.Mode = "util"
 		sc.Pol = c09GenPol(rng)
-		sc.Tasks = c09GenTasks(rng, sc.Pol.PeriodUs, sc.Pol.TimeoutUs, rng.Range(6, 60), false, func(op *c09Op) { op.Wait = rng.Bool(0.3) })
+		total, burst := c09Total(rng, sc.Pol.Limit)
+		if sc.Pol.TimeoutUs >= 30*sc.Pol.PeriodUs && rng.Bool(0.5) {
+			burst = true // deep queue: waits of many periods
+		}
+		sc.Tasks = c09GenTasks(rng, sc.Pol.PeriodUs, sc.Pol.TimeoutUs, total, burst, func(op *c09Op) { op.Wait = rng.Bool(0.3) })
 	case x < 42:
 		sc.Mode = "multi"
 		sc.Pol = c09GenPol(rng)
@@ -319,7 +426,22 @@ func c09Gen(rng *sim.Rand, tier string) interface{} {
 		for i := 0; i < nd; i++ {
 			sc.Dims = append(sc.Dims, rng.Pick(1, 2, 3, 5, 8))
 		}
-		sc.Tasks = c09GenTasks(rng, sc.Pol.PeriodUs, sc.Pol.TimeoutUs, rng.Range(6, 60), false, func(op *c09Op) { op.Wait = rng.Bool(0.3) })
+		minDim := 1 << 30
+		if c09WidePolicies && rng.Bool(0.05) {
+			for i := range sc.Dims {
+				sc.Dims[i] = rng.Pick(20, 50, 1000)
+			}
+		}
+		for _, d := range sc.Dims {
+			if d < minDim {
+				minDim = d
+			}
+		}
+		total, burst := c09Total(rng, minDim)
+		if sc.Pol.TimeoutUs >= 30*sc.Pol.PeriodUs && rng.Bool(0.5) {
+			burst = true
+		}
+		sc.Tasks = c09GenTasks(rng, sc.Pol.PeriodUs, sc.Pol.TimeoutUs, total, burst, func(op *c09Op) { op.Wait = rng.Bool(0.3) })
 	case x < 75:
 		sc.Mode = "filter"
 		defaults := rng.Bool(0.08)
@@ -333,16 +455,30 @@ func c09Gen(rng *sim.Rand, tier string) interface{} {
 		if T < 0 {
 			T = 100000
 		}
-		total := rng.Range(6, 60)
+		maxLimit := 0
+		for _, p := range sc.Spec.Policies {
+			if p.Limit > maxLimit {
+				maxLimit = p.Limit
+			}
+		}
+		total, deep := c09Total(rng, maxLimit)
 		hotP := 0.6
-		hot := c09Paths[rng.Intn(len(c09Paths))]
+		paths := c09Paths
+		if c09WideURLs && rng.Bool(0.25) {
+			paths = append(append([]string(nil), c09Paths...), c09PathsWide...)
+		}
+		hot := paths[rng.Intn(len(paths))]
+		otherMethods := c09WideURLs && rng.Bool(0.2)
 		cancelPct := rng.Pick(0, 0, 5, 15)
-		sc.Tasks = c09GenTasks(rng, P, T, total, rng.Bool(0.05), func(op *c09Op) {
+		sc.Tasks = c09GenTasks(rng, P, T, total, deep || rng.Bool(0.05), func(op *c09Op) {
 			op.Path = hot
 			if !rng.Bool(hotP) {
-				op.Path = c09Paths[rng.Intn(len(c09Paths))]
+				op.Path = paths[rng.Intn(len(paths))]
 			}
 			op.Method = rng.PickStr("GET", "GET", "GET", "GET", "GET", "GET", "GET", "POST", "POST", "PUT")
+			if otherMethods && rng.Bool(0.3) {
+				op.Method = rng.PickStr("HEAD", "DELETE", "PATCH", "OPTIONS", "POST")
+			}
 			if rng.Intn(100) < cancelPct {
 				op.CancelUs = []int64{1, P / 2, P, 2 * P, T}[rng.Intn(5)]
 				if op.CancelUs < 1 {
@@ -449,6 +585,9 @@ func c09Gen(rng *sim.Rand, tier string) interface{} {
 			sc.ReqRate, sc.BytesRate = 0, 0
 		}
 		sc.PeriodS = rng.Pick(0, 1, 1, 2, 3)
+		if c09WideMQTT && rng.Bool(0.08) {
+			sc.PeriodS = 60
+		}
 		ps := sc.PeriodS
 		if ps == 0 {
 			ps = 1
@@ -615,6 +754,9 @@ func (l *c09Ledger) eval(e *c09Env, st *c09Stats) string {
 		q0 := l.per(o.a)
 		if i > 0 && o.a.Sub(lastA) >= 10*l.period {
 			st.idleGap = true
+			if o.a.Sub(lastA)/l.period >= 1000000 {
+				st.hugeIdle = true
+			}
 		}
 		lastA = o.a
 		if q0 >= 1 && o.a.Sub(l.start)%l.period == 0 {
@@ -664,6 +806,9 @@ func (l *c09Ledger) eval(e *c09Env, st *c09Stats) string {
 				if qr >= q0+2 {
 					st.multiSpan = true
 				}
+				if qr >= q0+10 {
+					st.longSpan = true
+				}
 			} else {
 				st.immediate++
 				fmt.Fprintf(&sig, "I%d,", q0)
@@ -683,6 +828,9 @@ func (l *c09Ledger) eval(e *c09Env, st *c09Stats) string {
 			known[qr]++
 			if known[qr] == l.limit {
 				st.full = true
+				if l.limit >= 20 {
+					st.bigLimitFull = true
+				}
 			}
 			if known[qr] > l.limit {
 				extra := ""
@@ -706,6 +854,7 @@ type c09Stats struct {
 	idleGap, boundary, reachable, concWait, multiSpan, full        bool
 	unmatched, shadowed, held, acrossReload, keptReload, freshRule bool
 	cancelWait                                                     bool
+	longSpan, hugeIdle, bigLimitFull                               bool
 }
 
 func (st *c09Stats) probes(r *sim.Run, mode string) {
@@ -723,6 +872,9 @@ func (st *c09Stats) probes(r *sim.Run, mode string) {
 	p(st.concWait, "concurrent_waiters")
 	p(st.multiSpan, "wait_spans_2plus_periods")
 	p(st.full, "period_fully_used")
+	p(st.bigLimitFull, "period_fully_used_limit_ge_20")
+	p(st.longSpan, "wait_spans_10plus_periods")
+	p(st.hugeIdle, "idle_gap_1e6_periods")
 	p(st.unmatched, "filter.unmatched_request")
 	p(st.shadowed, "filter.request_matches_several_rules")
 	p(st.held, "filter.request_held_during_reload")
@@ -885,7 +1037,23 @@ func c09ExecUtil(e *c09Env, sc *c09Scenario, main *c09TL) {
 	} else if p.TimeoutUs < p.PeriodUs {
 		r.Probe("timeout_below_period")
 	}
+	c09PolProbes(r, limit, led.period, led.timeout)
 	r.SetSig(fmt.Sprintf("%s|%d|%d|%d|%v|%s", sc.Mode, limit, p.PeriodUs, p.TimeoutUs, sc.Dims, sig))
+}
+
+func c09PolProbes(r *sim.Run, limit int, period, timeout time.Duration) {
+	if limit >= 20 {
+		r.Probe("policy.limit_ge_20")
+	}
+	if period >= time.Minute {
+		r.Probe("policy.period_1m")
+	}
+	if period == 100*time.Millisecond {
+		r.Probe("policy.period_100ms")
+	}
+	if timeout >= 30*period {
+		r.Probe("policy.timeout_ge_30_periods")
+	}
 }
 
 // ---- filter ---------------------------------------------------------------------
@@ -910,14 +1078,18 @@ func (rr *c09RuleRef) match(method, path string) bool {
 			return false
 		}
 	}
-	switch rr.rule.Kind {
-	case "exact":
-		return path == rr.rule.Pat
-	case "prefix":
-		return strings.HasPrefix(path, rr.rule.Pat)
-	default:
-		return rr.re != nil && rr.re.MatchString(path)
+	one := func(kind, pat string) bool {
+		switch kind {
+		case "exact":
+			return path == pat
+		case "prefix":
+			return strings.HasPrefix(path, pat)
+		case "regex":
+			return rr.re != nil && rr.re.MatchString(path)
+		}
+		return false
 	}
+	return one(rr.rule.Kind, rr.rule.Pat) || one(rr.rule.Kind2, rr.rule.Pat2)
 }
 
 // c09RefSpec builds the reference view of a spec; nil if the spec is not one
@@ -948,18 +1120,27 @@ func c09RefSpec(s c09Spec) []*c09RuleRef {
 			return nil
 		}
 		rr := &c09RuleRef{rule: ru}
-		switch ru.Kind {
-		case "exact", "prefix":
-		case "regex":
-			re, err := regexp.Compile(ru.Pat)
-			if err != nil {
-				return nil
-			}
-			rr.re = re
-		default:
+		if ru.Kind2 == ru.Kind || (ru.Kind2 == "") != (ru.Pat2 == "") {
 			return nil
 		}
-		id := fmt.Sprintf("%v|%s|%s|ref=%q", ru.Methods, ru.Kind, ru.Pat, ru.Ref)
+		for _, kp := range [][2]string{{ru.Kind, ru.Pat}, {ru.Kind2, ru.Pat2}} {
+			switch kp[0] {
+			case "exact", "prefix":
+			case "regex":
+				re, err := regexp.Compile(kp[1])
+				if err != nil {
+					return nil
+				}
+				rr.re = re
+			case "":
+				if kp[1] != "" || kp[0] == ru.Kind {
+					return nil
+				}
+			default:
+				return nil
+			}
+		}
+		id := fmt.Sprintf("%v|%s|%s|%s|%s|ref=%q", ru.Methods, ru.Kind, ru.Pat, ru.Kind2, ru.Pat2, ru.Ref)
 		if seen[id] {
 			return nil // duplicate rules: not judged
 		}
@@ -984,6 +1165,19 @@ func c09RefSpec(s c09Spec) []*c09RuleRef {
 	return out
 }
 
+// c09Dur writes a duration the way configurations do ("1m", "10ms", "1500us").
+func c09Dur(us int64) string {
+	switch {
+	case us > 0 && us%60000000 == 0:
+		return fmt.Sprintf("%dm", us/60000000)
+	case us > 0 && us%1000000 == 0:
+		return fmt.Sprintf("%ds", us/1000000)
+	case us > 0 && us%1000 == 0:
+		return fmt.Sprintf("%dms", us/1000)
+	}
+	return fmt.Sprintf("%dus", us)
+}
+
 func c09RawSpec(s c09Spec) map[string]interface{} {
 	var pols []interface{}
 	for _, p := range s.Policies {
@@ -992,16 +1186,20 @@ func c09RawSpec(s c09Spec) map[string]interface{} {
 			m["limitForPeriod"] = p.Limit
 		}
 		if p.PeriodUs > 0 {
-			m["limitRefreshPeriod"] = fmt.Sprintf("%dus", p.PeriodUs)
+			m["limitRefreshPeriod"] = c09Dur(p.PeriodUs)
 		}
 		if p.TimeoutUs >= 0 {
-			m["timeoutDuration"] = fmt.Sprintf("%dus", p.TimeoutUs)
+			m["timeoutDuration"] = c09Dur(p.TimeoutUs)
 		}
 		pols = append(pols, m)
 	}
 	var urls []interface{}
 	for _, ru := range s.Rules {
-		m := map[string]interface{}{"url": map[string]interface{}{ru.Kind: ru.Pat}}
+		um := map[string]interface{}{ru.Kind: ru.Pat}
+		if ru.Kind2 != "" {
+			um[ru.Kind2] = ru.Pat2
+		}
+		m := map[string]interface{}{"url": um}
 		if len(ru.Methods) > 0 {
 			var ms []interface{}
 			for _, x := range ru.Methods {
@@ -1045,6 +1243,12 @@ func c09ExecFilter(e *c09Env, sc *c09Scenario, main *c09TL) {
 	}
 	spec, err := filters.NewSpec(nil, "c09-pipeline", c09RawSpec(sc.Spec))
 	if err != nil {
+		for _, p := range sc.Spec.Policies {
+			if c09WideDefaultLimit && p.Limit == 0 && strings.Contains(err.Error(), "limitForPeriod") {
+				r.Probe("filter.policy_without_limitForPeriod")
+				r.Violate("C09.documented-default-limit-rejected", "a policy that leaves limitForPeriod out (documented: optional, default 50) is rejected: %v\nspec: %+v", err, c09RawSpec(sc.Spec))
+			}
+		}
 		return // shrunk into an invalid spec
 	}
 	st := &c09Stats{}
@@ -1094,12 +1298,39 @@ func c09ExecFilter(e *c09Env, sc *c09Scenario, main *c09TL) {
 				gen := cur
 				var rr *c09RuleRef
 				nmatch := 0
+				path := c09PathOf(op.Path)
 				for _, x := range gen.rules {
-					if x.match(op.Method, op.Path) {
+					if x.match(op.Method, path) {
 						if rr == nil {
 							rr = x
 						}
 						nmatch++
+					}
+				}
+				if path != op.Path {
+					if strings.Contains(op.Path, "?") {
+						r.Probe("filter.request_with_query_string")
+					}
+					if strings.Contains(op.Path, "%") {
+						r.Probe("filter.request_with_percent_encoded_path")
+					}
+					if rr != nil {
+						r.Probe("filter.request_with_query_or_encoding_matches_a_rule")
+					}
+				}
+				switch op.Method {
+				case "GET", "POST", "PUT":
+				default:
+					r.Probe("filter.method_head_delete_patch_options")
+				}
+				if rr != nil && rr.rule.Kind2 != "" {
+					r.Probe("filter.rule_with_two_criteria_matched")
+				}
+				if rr != nil && len(rr.rule.Methods) > 0 {
+					for _, x := range gen.rules {
+						if x != rr && x.rule.Kind == rr.rule.Kind && x.rule.Pat == rr.rule.Pat && x.rule.Kind2 == rr.rule.Kind2 {
+							r.Probe("filter.rules_same_pattern_different_methods")
+						}
 					}
 				}
 				if nmatch > 1 {
@@ -1304,6 +1535,7 @@ func c09ExecFilter(e *c09Env, sc *c09Scenario, main *c09TL) {
 		} else if l.timeout < l.period {
 			r.Probe("timeout_below_period")
 		}
+		c09PolProbes(r, l.limit, l.period, l.timeout)
 	}
 	st.probes(r, sc.Mode)
 	for _, p := range sc.Spec.Policies {
@@ -1529,6 +1761,7 @@ func c09ExecMQTT(e *c09Env, sc *c09Scenario, main *c09TL) {
 	p(sc.ReqRate > 0 && sc.BytesRate == 0, "mqtt.request_limiter_only")
 	p(sc.ReqRate == 0 && sc.BytesRate > 0, "mqtt.byte_limiter_only")
 	p(!limited, "mqtt.unlimited")
+	p(ps >= 60, "mqtt.period_60s")
 	p(res.rejReq, "mqtt.reject_by_request_rate")
 	p(res.rejBytes, "mqtt.reject_by_bytes_rate")
 	p(res.rejCarry, "mqtt.reject_only_by_carried_overshoot")
@@ -1576,7 +1809,7 @@ func TestVerifC09(t *testing.T) {
 		Exec:     c09Exec,
 		MaxSteps: 30000,
 		Rule: "scenario = one system (util RateLimiter | MultiRateLimiter | RateLimiter filter with url rules, reloads, cancellations | MQTT Limiter | MQTT broker with 1-4 clients sending CONNECT/PUBLISH/PINGREQ/PUBACK) with drawn policy " +
-			"(limit, period, timeout incl. 0 / <period / =period / multiples) + 1-4 tasks with drawn gaps (bursts, exact period boundaries +-1us, idle gaps of many periods); " +
+			"(limit 1-8 and 20/50, period 1ms-1min, timeout incl. 0 / <period / =period / multiples up to 100 periods) + 1-4 tasks with drawn gaps (bursts, exact period boundaries +-1us, idle gaps of many periods up to 8 hours); " +
 			"non-trivial = at least one request had to wait or was rejected; distinct = distinct (system, policy, per-limiter sequence of outcome kinds with period indexes)",
 		Real: []string{"pkg/util/ratelimiter (RateLimiter, MultiRateLimiter)", "pkg/filters/ratelimiter (Spec validation via filters.NewSpec, Init, Inherit/reload, Handle)",
 			"pkg/object/mqttproxy Limiter (newLimiter, acquirePermission)", "pkg/util/urlrule, pkg/context, pkg/protocols/httpprot",
@@ -1591,6 +1824,7 @@ func TestVerifC09(t *testing.T) {
 			"no request is started on a filter generation while/after its successor inherits from it (C11)",
 			"unchanged rule = same methods, url pattern, policyRef text and same effective policy (name and fields); a switched defaultPolicyRef makes the rules without own policyRef changed rules (fresh limiter, new policy); renamed policies / duplicate rules not generated",
 			"first matching url rule limits a request",
+			"a rule's url criteria are matched against the request path (no query string, percent-decoded; only unreserved characters are generated in encoded form); the criteria of one rule are alternatives (doc: 'the relationship between exact, prefix and regex is OR'); two rules on one pattern that differ in methods are two rules",
 			"mqtt: 'less than one packet' uses the largest packet admitted in the period; a rejection may also be justified by byte overshoot carried from earlier periods",
 			"mqttc: a PUBLISH is admitted iff it reached the publish pipeline (PUBACKs are recorded, not judged); every PUBLISH (any QoS, DUP, RETAIN) is one packet of its wire size against the limiter of its connection; the limiter may charge up to 8 bytes of framing on top of the wire size; PINGREQ/PUBACK take no permit",
 			"mqttc: a connection that created its own limiter starts a fresh budget (periods counted from that creation), one that did not continues the ledger of the previous connection with the same client id; the connection limiter is one broker-wide ledger over all CONNECT packets",
